@@ -1,54 +1,74 @@
 /-
 C18 — Direction indicators select the same field descriptors in all three stages.
 
-Status on the current code: only the MATCHER filters descriptors by direction; `compress` zips the packet with
-the whole descriptor list and `decompress` (which has no direction argument) walks the whole list. The
-full statement is therefore FALSE of the code for rules that carry a descriptor not applicable to the packet's
-direction — `C18_witness` below is the machine-checked counter-example (finding F-C18-1, replayed on the real
-code on every run) — and is proved in the `_partial` form whose hypothesis is exactly the complement of that
-failure domain.
-
-Full statement (not provable, kept visible):
-  theorem C18_same_descriptors (p r) : the descriptors used by matching, compression and decompression of a
-    packet of direction d are all  r.fields.filter (fun f => f.dir = d ∨ f.dir = Bi)
+`compress`, `decompress` and `ContextManager.decompress` take the packet's direction (an optional argument; the
+manager's `compress` always passes it): with it, all three stages use `restrict r d` — the descriptors marked `d`
+or bidirectional, in rule order, the very list the matcher builds. Before the repair (finding F-C18-1, now
+`fixed`) only the matcher filtered; `C18_no_direction` records what a caller who omits the argument still gets.
 -/
-import Schc.Proofs.Roundtrip
+import Schc.Proofs.Direction
+import Schc.Proofs.Select
 
 namespace Schc
 
-/-- stage 1 (matching) does use exactly the descriptors marked d or Bi, in rule order, for every rule -/
+/-- stage 1 (matching) uses exactly the descriptors marked d or Bi, in rule order, for every rule -/
 theorem C18_matcher (p : Packet) (r : Rule) (hT : RuleTypeOK r) (hn : r.nature = .compression) :
-    ruleMatches p r = .ok (let rfs := r.fields.filter (fun f => f.dir == p.dir || f.dir == .bi)
+    ruleMatches p r = .ok (let rfs := (restrict r p.dir).fields
                            p.fields.length == rfs.length && Spec.allMatch p.fields rfs) := by
   rw [ruleMatches_spec p r hT]; unfold Spec.applicable; rw [hn]; rfl
 
-/-- stages 2 and 3 use the same descriptors whenever the direction filter is the identity on the rule (every
-    descriptor is d or Bi): such a rule compresses and restores packets of direction d losslessly -/
-theorem C18_same_descriptors_partial (p : Packet) (r : Rule) (hn : r.nature = .compression)
-    (hdir : ∀ rf ∈ r.fields, Spec.dirApplies p.dir rf.dir = true)
-    (happ : Spec.applicable p r = true) (hfit : AllFits p.fields r.fields)
-    (hraw : p.raw.bits = p.fields.flatMap (·.value.bits) ++ p.payload.bits) :
-    r.fields.filter (fun f => Spec.dirApplies p.dir f.dir) = r.fields ∧
-    ∃ c, compress p r = .ok c ∧ decompress c r = .ok ⟨p.raw.bits, .right⟩ :=
-  ⟨by rw [List.filter_eq_self]; exact hdir, roundtrip_compression p r hn hdir happ hfit hraw⟩
+/-- the descriptors of direction `d`: those marked `d` or bidirectional, in rule order, nothing else -/
+theorem C18_descriptors (r : Rule) (d : Dir) :
+    (restrict r d).fields = r.fields.filter (fun f => f.dir == d || f.dir == .bi) ∧ (restrict r d).id = r.id ∧ (restrict r d).nature = r.nature :=
+  ⟨rfl, rfl, rfl⟩
 
-/-- the counter-example: one field with a Dw descriptor (ignore / value-sent) followed by an Up descriptor
-    (equal / not-sent). The rule is offered for the Up packet (its Up descriptor matches), yet `compress` pairs the
-    field with the Dw descriptor and sends the value, and `decompress` emits both descriptors' fields: the packet
-    comes back doubled. -/
-theorem C18_witness :
-    let p : Packet := ⟨.up, [⟨"f0", ⟨[true, false, true, false], .left⟩, 0⟩], ⟨[], .left⟩, ⟨[true, false, true, false], .left⟩⟩
+/-- stages 2 and 3 (compression, decompression) with the direction given run on that same list -/
+theorem C18_same_descriptors (p : Packet) (r : Rule) (s : ABuf) (d : Dir) :
+    compressD p r (some d) = compress p (restrict r d) ∧ decompressD s r (some d) = decompress s (restrict r d) :=
+  ⟨rfl, rfl⟩
+
+/-- the context manager passes the direction to the compressor: what it sends was compressed with the descriptors
+    the matcher selected the rule by -/
+theorem C18_manager (rules : List Rule) (p : Packet) (d : Dir) (st : Strategy) (hT : ∀ r ∈ rules, RuleTypeOK r) (c : ABuf)
+    (hc : managerCompressPacket rules p d st = .ok c) :
+    ∃ r ∈ rules, Spec.applicable { p with dir := d } r = true ∧ compress { p with dir := d } (restrict r d) = .ok c :=
+  selected_rule rules p d st hT c hc
+
+/-- such a rule therefore compresses and restores uplink and downlink packets losslessly, each with its own
+    descriptors: for every rule (any mix of Up, Dw and Bi descriptors, any positions) offered for the packet whose
+    descriptors for the packet's direction are lossless pairings that fit -/
+theorem C18_roundtrip (p : Packet) (r : Rule) (hn : r.nature = .compression)
+    (happ : Spec.applicable p r = true) (hfit : AllFits p.fields (restrict r p.dir).fields)
+    (hraw : p.raw.bits = p.fields.flatMap (·.value.bits) ++ p.payload.bits) :
+    ∃ c, compressD p r (some p.dir) = .ok c ∧ decompressD c r (some p.dir) = .ok ⟨p.raw.bits, .right⟩ :=
+  roundtrip_dir p r hn happ hfit hraw
+
+/-- when every descriptor applies to the direction the argument changes nothing -/
+theorem C18_all_apply (r : Rule) (d : Dir) (h : ∀ rf ∈ r.fields, Spec.dirApplies d rf.dir = true) : restrict r d = r :=
+  restrict_of_all r d h
+
+/-- the former counter-example of F-C18-1 (one field with a Dw descriptor ignore / value-sent followed by an Up
+    descriptor equal / not-sent, an Up packet): with the direction it round-trips, the Up packet elided to the
+    rule ID alone, and the same rule serves a Dw packet with the other descriptor -/
+theorem C18_witness_repaired :
     let r : Rule := ⟨⟨[true], .left⟩, .compression,
       [⟨"f0", 4, 0, .dw, .buf ⟨[], .left⟩, .ignore, .valueSent⟩, ⟨"f0", 4, 0, .up, .buf ⟨[true, false, true, false], .left⟩, .equal, .notSent⟩]⟩
-    Spec.applicable p r = true ∧ ((compress p r).bind fun s => decompress s r) ≠ .ok ⟨p.raw.bits, .right⟩ := by
+    let up : Packet := ⟨.up, [⟨"f0", ⟨[true, false, true, false], .left⟩, 0⟩], ⟨[], .left⟩, ⟨[true, false, true, false], .left⟩⟩
+    let dw : Packet := ⟨.dw, [⟨"f0", ⟨[false, true, true, false], .left⟩, 0⟩], ⟨[], .left⟩, ⟨[false, true, true, false], .left⟩⟩
+    Spec.applicable up r = true ∧ Spec.applicable dw r = true ∧
+    compressD up r (some .up) = .ok ⟨[true], .right⟩ ∧ decompressD ⟨[true], .right⟩ r (some .up) = .ok ⟨up.raw.bits, .right⟩ ∧
+    compressD dw r (some .dw) = .ok ⟨[true, false, true, true, false], .right⟩ ∧
+    decompressD ⟨[true, false, true, true, false], .right⟩ r (some .dw) = .ok ⟨dw.raw.bits, .right⟩ := by
   decide
 
-/-- non-vacuity of the partial theorem: a rule whose descriptors are Up or Bi, on an Up packet -/
-example :
-    let p : Packet := ⟨.up, [⟨"f0", ⟨[true, false, true, false], .left⟩, 0⟩, ⟨"f1", ⟨[true], .left⟩, 0⟩], ⟨[false], .left⟩, ⟨[true, false, true, false, true, false], .left⟩⟩
+/-- what a caller who does not pass the direction gets (the argument is optional for compatibility): all
+    descriptors, as before the repair — on the same rule the Up packet then comes back doubled. Not a violation of
+    the property, which speaks of a packet travelling in a direction `d`; recorded so that the limit is visible. -/
+theorem C18_no_direction :
     let r : Rule := ⟨⟨[true], .left⟩, .compression,
-      [⟨"f0", 4, 0, .up, .buf ⟨[true, false], .left⟩, .msb, .lsb⟩, ⟨"f1", 1, 0, .bi, .buf ⟨[], .left⟩, .ignore, .valueSent⟩]⟩
-    (∀ rf ∈ r.fields, Spec.dirApplies p.dir rf.dir = true) ∧ ((compress p r).bind fun s => decompress s r) = .ok ⟨p.raw.bits, .right⟩ := by
+      [⟨"f0", 4, 0, .dw, .buf ⟨[], .left⟩, .ignore, .valueSent⟩, ⟨"f0", 4, 0, .up, .buf ⟨[true, false, true, false], .left⟩, .equal, .notSent⟩]⟩
+    let up : Packet := ⟨.up, [⟨"f0", ⟨[true, false, true, false], .left⟩, 0⟩], ⟨[], .left⟩, ⟨[true, false, true, false], .left⟩⟩
+    ((compressD up r none).bind fun s => decompressD s r none) ≠ .ok ⟨up.raw.bits, .right⟩ := by
   decide
 
 end Schc
